@@ -9,6 +9,8 @@ pub mod util;
 
 #[cfg(any(feature = "c01", feature = "c02"))]
 pub mod c01;
+#[cfg(feature = "c02")]
+pub mod c02;
 #[cfg(any(feature = "c04", feature = "c05", feature = "c19"))]
 pub mod c04;
 #[cfg(feature = "c05")]
